@@ -201,7 +201,7 @@ func c08Random(c *Ctx, i int, r *gen.R) {
 	if r.Chance(1, 15) {
 		hdr = 2
 	}
-	spec := r.Table(gen.TableOpts{MaxCols: 5, MaxRows: 6, Header: hdr, ZeroHeaderOK: true, MinCols: 0, Noise: gen.NoiseSkipable | gen.NoiseCallbacks,
+	spec := r.Table(gen.TableOpts{MaxCols: 5, MaxRows: 6, Header: hdr, ZeroHeaderOK: true, MinCols: 0, Noise: gen.NoiseSkipable | gen.NoiseCallbacks | gen.NoiseAlignElsewhere,
 		Item: func(r *gen.R) gen.ItemSpec { return r.TextItem(c08Fam, 6) }})
 	cs := &c08Case{Table: spec, Aligns: make([]int, spec.NCols()+1)}
 	if r.Chance(3, 4) {
